@@ -88,4 +88,59 @@ theorem raises_iff (hash : Nat → Nat) (prior : Option Nat) (ds : List DataResp
   simp [List.replicate_succ, download, start, checkSum, fetch, logData] <;>
   (repeat' split) <;> simp_all <;> exact ⟨_, _, ⟨rfl, rfl⟩, ‹_›, ‹_›⟩
 
+/-! ### the text of the checksum file -/
+
+theorem dropWhile_white_append (lead rest : List Nat) (h : ∀ c ∈ lead, isWhite c = true) :
+    (lead ++ rest).dropWhile isWhite = rest.dropWhile isWhite := by
+  induction lead with
+  | nil => rfl
+  | cons a l ih =>
+    have ha : isWhite a = true := h a (by simp)
+    simp only [List.cons_append, List.dropWhile_cons, ha, if_true]
+    exact ih (fun c hc => h c (by simp [hc]))
+
+theorem takeWhile_field (tok rest : List Nat) (ht : ∀ c ∈ tok, isWhite c = false)
+    (hr : rest = [] ∨ ∃ w r, rest = w :: r ∧ isWhite w = true) :
+    (tok ++ rest).takeWhile (fun c => !isWhite c) = tok := by
+  induction tok with
+  | nil =>
+    rcases hr with rfl | ⟨w, r, rfl, hw⟩
+    · rfl
+    · simp [hw]
+  | cons a l ih =>
+    have ha : isWhite a = false := ht a (by simp)
+    simp only [List.cons_append, List.takeWhile_cons, ha, Bool.not_false, if_true]
+    rw [ih (fun c hc => ht c (by simp [hc]))]
+
+theorem first_field_of_layout (lead tok rest : List Nat) (hl : ∀ c ∈ lead, isWhite c = true)
+    (hne : tok ≠ []) (ht : ∀ c ∈ tok, isWhite c = false)
+    (hr : rest = [] ∨ ∃ w r, rest = w :: r ∧ isWhite w = true) :
+    firstField (lead ++ (tok ++ rest)) = some tok := by
+  unfold firstField
+  rw [dropWhile_white_append lead _ hl]
+  obtain ⟨a, l, rfl⟩ := List.exists_cons_of_ne_nil hne
+  have ha : isWhite a = false := ht a (by simp)
+  have hd : ((a :: l) ++ rest).dropWhile isWhite = (a :: l) ++ rest := by
+    simp [ha]
+  rw [hd, takeWhile_field (a :: l) rest ht hr]
+
+theorem first_field_blank (ws : List Nat) (h : ∀ c ∈ ws, isWhite c = true) : firstField ws = none := by
+  unfold firstField
+  have := dropWhile_white_append ws [] h
+  simp only [List.append_nil, List.dropWhile_nil] at this
+  rw [this]; rfl
+
+theorem parse_layout_irrelevant (render : List (Nat × List Nat)) (other : Nat) (lead tok rest : List Nat)
+    (hl : ∀ c ∈ lead, isWhite c = true) (hne : tok ≠ []) (ht : ∀ c ∈ tok, isWhite c = false)
+    (hr : rest = [] ∨ ∃ w r, rest = w :: r ∧ isWhite w = true) :
+    parseSum render other (.text (lead ++ (tok ++ rest))) = parseSum render other (.text tok) := by
+  have h1 := first_field_of_layout lead tok rest hl hne ht hr
+  have h2 := first_field_of_layout [] tok [] (by simp) hne ht (Or.inl rfl)
+  simp only [List.nil_append, List.append_nil] at h2
+  simp only [parseSum, h1, h2]
+
+theorem parse_blank_missing (render : List (Nat × List Nat)) (other : Nat) (ws : List Nat)
+    (h : ∀ c ∈ ws, isWhite c = true) : parseSum render other (.text ws) = .missing := by
+  simp only [parseSum, first_field_blank ws h]
+
 end PhyVerif.C20.Lemmas
